@@ -812,5 +812,21 @@ func cmdXlate(repo, outDir string) error {
 			}
 		}
 	}
+	effs, err := computeEffects(repo)
+	if err != nil && effs == nil {
+		fmt.Fprintf(os.Stderr, "xlate effects: %v\n", err)
+		if firstErr == nil {
+			firstErr = err
+		}
+		return firstErr
+	}
+	txt := effectsGallina(effs)
+	dst := filepath.Join(outDir, "EffectsGo.v")
+	old, _ := os.ReadFile(dst)
+	if string(old) != txt {
+		if err := os.WriteFile(dst, []byte(txt), 0o644); err != nil {
+			return err
+		}
+	}
 	return firstErr
 }
